@@ -41,6 +41,19 @@ bool removeHandleFromScopedRemoverItemList(std::vector<Item> & itemList, Handle 
 	return false;
 }
 
+template <typename Item, typename Handle, typename Mutex>
+bool hasHandleInScopedRemoverItemList(std::vector<Item> & itemList, Handle & handle, Mutex & mutex)
+{
+	if(! handle) {
+		return false;
+	}
+	auto handlePointer = handle.lock();
+	std::unique_lock<Mutex> lock(mutex);
+	return std::find_if(itemList.begin(), itemList.end(), [&handlePointer](Item & item) {
+		return item.handle && item.handle.lock() == handlePointer;
+	}) != itemList.end();
+}
+
 } //namespace internal_
 
 template <typename DispatcherType, typename Enabled = void>
@@ -180,8 +193,14 @@ public:
 
 	bool removeListener(const typename DispatcherType::Event & event, const typename DispatcherType::Handle handle)
 	{
-		if(internal_::removeHandleFromScopedRemoverItemList(itemList, handle, itemListMutex)) {
-			return dispatcher->removeListener(event, handle);
+		// The listener is forgotten only when the dispatcher really removed it. Asked with an event
+		// the listener was not added for, the dispatcher leaves it attached, so the remover must stay
+		// responsible for it. The node is kept alive until the item is matched again.
+		const auto keepAlive = handle.lock();
+		if(internal_::hasHandleInScopedRemoverItemList(itemList, handle, itemListMutex)
+			&& dispatcher->removeListener(event, handle)) {
+			internal_::removeHandleFromScopedRemoverItemList(itemList, handle, itemListMutex);
+			return true;
 		}
 		return false;
 	}
